@@ -251,6 +251,7 @@ func e2eExec(c *e2eCase, work string, tr *vTrace, logLines bool) (*e2eResult, ma
 		return true
 	}
 	pointOver := make(chan struct{})
+	var pointFired func() bool
 	hooks := &e2eHooks{chain: e2eChain, uid: e2eChainUID}
 	if c.WatchdogMs > 0 {
 		hooks.watchdog = time.Duration(c.WatchdogMs) * time.Millisecond
@@ -263,7 +264,7 @@ func e2eExec(c *e2eCase, work string, tr *vTrace, logLines bool) (*e2eResult, ma
 			if o.Upload {
 				dataDir = "c2s"
 			}
-			e2eInstallPoint(pt, c.ID, tr, w, client, server, f, dataDir, emitLive, &stopAt, func() {
+			pointFired = e2eInstallPoint(pt, c.ID, tr, w, client, server, f, dataDir, emitLive, &stopAt, func() {
 				pauseMu.Lock()
 				nPauses++
 				pauseMu.Unlock()
@@ -422,6 +423,11 @@ func e2eExec(c *e2eCase, work string, tr *vTrace, logLines bool) (*e2eResult, ma
 	close(pointOver)
 	if c.Plan.Point != nil {
 		e2ePointWait()
+		if pointFired == nil || !pointFired() {
+			// the transfer was over before the goroutine came to the point (or the point does not exist any more):
+			// nothing was done to this run, it is not judged as a stopped / paused / faulted one
+			tr.Emit(map[string]any{"e": "unfired", "run": c.ID}, nil)
+		}
 	}
 	if len(res.Hung) > 0 || res.NoAct {
 		e2eTainted = true
